@@ -393,9 +393,20 @@ func BFS(sc *Scenario, mf MonitorFactory, lim Limits) *Result {
 						cands[fi] = append(cands[fi], cand{parent: si, term: true, outc: w.outcome()})
 						continue
 					}
+					var npath []Event
+					if sc.NoClone {
+						npath = pathOf(states, si)
+					}
 					for ei, ev := range en {
-						w2 := w.Clone()
-						if ei == 0 {
+						var w2 *World
+						if sc.NoClone {
+							// replay-based successor: the whole path is re-executed on fresh real objects
+							w2, _ = Replay(sc, mf, npath)
+							lr++
+						} else {
+							w2 = w.Clone()
+						}
+						if ei == 0 && !sc.NoClone {
 							// validate the clone against its source
 							if w2.Key(false) != states[si].key {
 								hmu.Lock()
@@ -421,7 +432,7 @@ func BFS(sc *Scenario, mf MonitorFactory, lim Limits) *Result {
 						cands[fi] = append(cands[fi], c)
 					}
 					// the source must not have been disturbed by what happened to its clones
-					if w.Key(false) != states[si].key {
+					if !sc.NoClone && w.Key(false) != states[si].key {
 						hmu.Lock()
 						harnessErr = fmt.Sprintf("state %d changed while its clones were stepped (aliasing)", si)
 						hmu.Unlock()
